@@ -14,6 +14,55 @@ POOLS = []
 WORKER_FIRED = multiprocessing.Value('i', 0)   # faults that fired inside pool workers
 
 
+# what the current pool worker process is doing (per process; forked copies)
+WCTX = {'key': None, 'task': -1, 'written': 0, 'tasks': [], 'njob': 0}
+
+
+def rec_id(r):
+    return '%s|%d|%s|%d' % (r.query_name, r.flag & 0x9C0, r.reference_name, r.reference_start)
+
+
+def molecule_recs(mol):
+    """identities of the records a molecule writes (public iter_reads, else its fragments)"""
+    try:
+        return [rec_id(r) for r in mol.iter_reads()]
+    except Exception:
+        try:
+            return [rec_id(r) for fr in mol for r in fr if r is not None]
+        except Exception:
+            return None
+
+
+def reported_tasks(meta):
+    """the tasks a worker reports as given up: the list of task dicts in its meta (by key name when there is one
+    that mentions 'timeout', else any list of dicts)"""
+    try:
+        cands = [(k, v) for k, v in meta.items() if isinstance(v, (list, tuple)) and all(isinstance(x, dict) for x in v)]
+        named = [v for k, v in cands if 'timeout' in str(k).lower()]
+        return list(named[0] if named else (cands[0][1] if cands else []))
+    except Exception:
+        return []
+
+
+def job_key(args):
+    """canonical identity of one job of the pool: its list of (contig, start, end)"""
+    try:
+        return [[str(t.get('contig')), str(t.get('start')), str(t.get('end'))] for t in args[1]]
+    except Exception:
+        return None
+
+
+def wlog(name, obj):
+    d = STATE.get('logdir')
+    if not d:
+        return
+    try:
+        with open(os.path.join(d, '%s_%d_%d.json' % (name, os.getpid(), WCTX['njob'])), 'w') as fh:
+            json.dump(obj, fh)
+    except Exception:
+        pass
+
+
 CASE_TIMEOUT = 60
 RUN_BUDGET = 1000      # seconds for one harness process; later cases are reported as skipped
 
@@ -100,6 +149,17 @@ def hit(point, **ctx):
     for flt in STATE['faults']:
         if flt['point'] != point:
             continue
+        if 'jobkey' in flt:
+            # addressed by job / task / molecules already written by that task (independent of scheduling)
+            if in_main() or WCTX['key'] != flt['jobkey'] or WCTX['task'] != flt.get('task', 0) \
+                    or WCTX['written'] != flt.get('at', 0) or flt.get('_done'):
+                continue
+            flt['_done'] = True
+            STATE['fired'].append(point)
+            with WORKER_FIRED.get_lock():
+                WORKER_FIRED.value += 1
+            wlog('wfired', {'point': point, 'key': WCTX['key'], 'task': WCTX['task'], 'at': WCTX['written']})
+            return flt
         where = flt.get('where', 'any')
         if where == 'main' and not in_main():
             continue
@@ -113,6 +173,7 @@ def hit(point, **ctx):
         if not in_main():
             with WORKER_FIRED.get_lock():
                 WORKER_FIRED.value += 1
+            wlog('wfired', {'point': point, 'key': WCTX['key'], 'task': WCTX['task'], 'at': WCTX['written']})
         return flt
     return None
 
@@ -149,7 +210,7 @@ def install():
 
     def p_index(path, *args, **kw):
         point = 'index_out' if os.path.abspath(path) == STATE['out'] and in_main() else \
-                ('index_header' if path.endswith('_header.bam') else 'index_other')
+                ('index_header' if path.endswith('_header.bam') else ('index_other' if in_main() else 'index_worker'))
         flt = hit(point)
         if flt:
             boom(flt)
@@ -175,6 +236,10 @@ def install():
             point = 'remove_unsorted'
         elif in_main() and '/scmo_' in p and p.endswith('.bam'):
             point = 'remove_merged_input'
+        elif not in_main() and p.endswith('.bam'):
+            point = 'w_remove_bam'
+        elif not in_main() and p.endswith('.bam.bai'):
+            point = 'w_remove_bai'
         else:
             point = 'remove_other'
         flt = hit(point)
@@ -216,7 +281,51 @@ def install():
             if flt.get('kind') in ('partial', 'base_partial'):
                 ORIG['write_pysam'](self, *a, **kw)
             boom(flt)
-        return ORIG['write_pysam'](self, *a, **kw)
+        r = ORIG['write_pysam'](self, *a, **kw)
+        if not in_main() and WCTX['tasks']:
+            WCTX['written'] += 1
+            t = WCTX['tasks'][-1]
+            t['written'] += 1
+            ids = molecule_recs(self)
+            if ids is None:
+                t['recs'] = None
+            elif t['recs'] is not None:
+                t['recs'] += ids
+        return r
+
+    def p_task(*a, **kw):
+        # one task of a worker (run_tagging_task): bookkeeping for faults addressed by task, and what it wrote
+        WCTX['task'] += 1
+        WCTX['written'] = 0
+        t = {'written': 0, 'recs': [], 'outcome': 'raised', 'region': [str(kw.get('contig')), str(kw.get('start')), str(kw.get('end'))]}
+        WCTX['tasks'].append(t)
+        try:
+            r = ORIG['task'](*a, **kw)
+            t['outcome'] = 'ok'
+            return r
+        except TimeoutError:
+            t['outcome'] = 'timeout'
+            raise
+
+    def p_wopen(*a, **kw):
+        flt = hit('w_open')
+        if flt:
+            boom(flt)
+        return ORIG['wopen'](*a, **kw)
+
+    def p_prefetch(*a, **kw):
+        flt = hit('w_prefetch' if not in_main() else 'prefetch_main')
+        if flt:
+            boom(flt)
+        return ORIG['prefetch'](*a, **kw)
+
+    def p_submit(*a, **kw):
+        # --cluster: nothing is submitted; the command is kept for inspection
+        flt = hit('submit_job')
+        if flt:
+            boom(flt)
+        STATE.setdefault('submitted', []).append(str(a[0]) if a else str(kw.get('command')))
+        return 'job%d' % len(STATE['submitted'])
 
     def p_write_tags(self, *a, **kw):
         flt = hit('write_tags')
@@ -268,6 +377,18 @@ def install():
     tm.merge_bams = p_merge_bams
     tm.Pool = p_pool
     tm.run_tagging_tasks = worker_entry
+    if hasattr(tg, 'run_tagging_task'):
+        ORIG['task'] = tg.run_tagging_task
+        tg.run_tagging_task = p_task
+    if hasattr(tg, 'AlignmentFile'):
+        ORIG['wopen'] = tg.AlignmentFile
+        tg.AlignmentFile = p_wopen
+    if hasattr(tg, 'prefetch'):
+        ORIG['prefetch'] = tg.prefetch
+        tg.prefetch = p_prefetch
+    if hasattr(tm, 'submit_job'):
+        ORIG['submit_job'] = tm.submit_job
+        tm.submit_job = p_submit
     return tm
 
 
@@ -293,7 +414,37 @@ def worker_entry(args):
             with WORKER_FIRED.get_lock():
                 WORKER_FIRED.value += 1
             boom(flt)
-    return ORIG['rtt'](args)
+    return run_worker(args)
+
+
+def run_worker(args):
+    """the real run_tagging_tasks, with a log of what this job did (read back by the harness)"""
+    WCTX.update(key=job_key(args), task=-1, written=0, tasks=[])
+    WCTX['njob'] += 1
+    log = {'key': WCTX['key'], 'ret': 'raise', 'timeouts': None}
+    if STATE.get('save_args'):
+        try:
+            import pickle
+            with open(os.path.join(STATE['logdir'], 'wargs_%d_%d.pkl' % (os.getpid(), WCTX['njob'])), 'wb') as fh:
+                pickle.dump({'key': WCTX['key'], 'args': args}, fh)
+        except Exception:
+            pass
+    try:
+        r = ORIG['rtt'](args)
+        try:
+            log['ret'] = 'none' if r[0] is None else 'path'
+            log['path'] = r[0]
+            log['timeouts'] = [[str(t.get('contig')), str(t.get('start')), str(t.get('end'))] for t in reported_tasks(r[1])]
+        except Exception:
+            log['ret'] = 'other'
+        return r
+    except BaseException as e:
+        log['error'] = '%s: %s' % (type(e).__name__, str(e)[:200])
+        log['raised'] = classify_exc(e)
+        raise
+    finally:
+        log['tasks'] = WCTX['tasks']
+        wlog('wjob', log)
 
 
 # ----------------------------------------------------------------------------- observation
@@ -305,7 +456,9 @@ def read_bam(path):
         save = pysam.set_verbosity(0)
         try:
             with pysam.AlignmentFile(path, 'rb') as f:
-                res['so_header'] = f.header.to_dict().get('HD', {}).get('SO')
+                hd = f.header.to_dict()
+                res['so_header'] = hd.get('HD', {}).get('SO')
+                res['blacklisted'] = [c for c in hd.get('CO', []) if 'blacklist' in c.lower()]
                 recs, order = [], []
                 for r in f:
                     recs.append('%s|%d|%s|%d' % (r.query_name, r.flag & 0x9C0, r.reference_name, r.reference_start))
@@ -375,7 +528,9 @@ def observe(d, out, ref):
     co = bool(ex and info['readable'] and ref is not None and info['recs'] == ref)
     so = bool(ex and info['readable'] and info['so_header'] == 'coordinate' and info['sorted'])
     ix = index_ok(out)
+    bl = info.get('blacklisted') or []
     return {'world': [st, int(ex), int(co), int(so), int(ix)], 'status_text': txt, 'n_records': info['n'],
+            'rep': int(bool(bl)), 'blacklisted': bl, 'recs': info['recs'] if ref is not None and info['recs'] != ref else None,
             'other_status_files': extra, 'bam_error': info.get('error'),
             'leftovers': sorted(x for x in os.listdir(d) if 'unsorted' in x or x.startswith('scmo_'))}
 
@@ -567,6 +722,8 @@ def run_tagger(tm, case, d, out, faults):
     STATE['counts'] = {}
     STATE['fired'] = []
     STATE['out'] = os.path.abspath(out)
+    STATE['logdir'] = d
+    STATE['submitted'] = []
     new_counters()
     inp = os.path.join(d, 'input.bam')
     if not os.path.exists(inp):
@@ -590,7 +747,8 @@ def run_tagger(tm, case, d, out, faults):
             except BaseException as e:
                 raised, err = classify_exc(e), '%s: %s' % (type(e).__name__, str(e)[:200])
             with open(report, 'w') as fh:
-                json.dump({'raised': raised, 'error': err, 'counts': STATE['counts'], 'fired': STATE['fired']}, fh)
+                json.dump({'raised': raised, 'error': err, 'counts': STATE['counts'], 'fired': STATE['fired'],
+                           'submitted': STATE.get('submitted', [])}, fh)
         except BaseException:
             code = 3
         finally:
@@ -636,7 +794,48 @@ def run_tagger(tm, case, d, out, faults):
     counts = dict(rep['counts']) if rep else {}
     fired = (list(rep['fired']) if rep else []) + list(STATE['fired']) + ['worker-side'] * raw(WORKER_FIRED)
     counts['fired'] = fired
+    counts['submitted'] = rep.get('submitted', []) if rep else []
     return raised, err, counts, raw(SHARED), raw(MOLS)
+
+
+def collect_logs(d):
+    """what the pool workers of the last run in d logged: jobs (canonical order: by key) and where worker-side
+    faults fired"""
+    jobs, fired = [], []
+    for fn in sorted(os.listdir(d)):
+        if fn.startswith(('wjob_', 'wfired_')) and fn.endswith('.json'):
+            try:
+                o = json.load(open(os.path.join(d, fn)))
+            except Exception:
+                continue
+            (jobs if fn.startswith('wjob_') else fired).append(o)
+    jobs = [j for j in jobs if j.get('key') is not None]
+    jobs.sort(key=lambda j: json.dumps(j['key']))
+    return jobs, fired
+
+
+def segments_check(out_recs, ref_recs, ref_jobs, jobs, blacklisted):
+    """-max_time_per_segment: which records of the reference are missing from the output, and are they all
+    records of tasks that were reported as timed out (by the worker) and blacklisted in the output header
+    (by the parent)?  None when the output is complete / unreadable or the per-task records are not known."""
+    if out_recs is None or ref_recs is None or not ref_jobs:
+        return None
+    from collections import Counter
+    missing = Counter(ref_recs) - Counter(out_recs)
+    if not missing:
+        return None
+    reported = [tuple(t) for j in jobs for t in (j.get('timeouts') or [])]
+    covered = Counter()
+    for j in ref_jobs:
+        for t in j.get('tasks', []):
+            if t.get('recs') is None:
+                return None
+            if tuple(t.get('region') or ()) in reported:
+                covered.update(t['recs'])
+    in_header = all(any(str(r[0]) in c for c in blacklisted) for r in reported)
+    silent = missing - covered
+    return {'missing': sum(missing.values()), 'missing_not_reported': sum(silent.values()), 'reported_tasks': len(reported),
+            'reported_in_header': bool(in_header), 'example': sorted(silent)[:3]}
 
 
 def pysam_open(path):
@@ -653,11 +852,16 @@ def handler(p):
     out = {'refs': {}, 'cases': []}
     # reference (fault free) runs, one per configuration
     for key, case in p['configs'].items():
+        if case.get('noref'):
+            continue
         d = os.path.join(scratch, 'ref_' + key)
         os.makedirs(d)
         o = os.path.join(d, 'out.bam')
         t0 = time.time()
+        STATE['save_args'] = bool(case.get('mp'))
         raised, err, counts, jobs, mols = run_tagger(tm, case, d, o, [])
+        STATE['save_args'] = False
+        wjobs, _ = collect_logs(d)
         info = read_bam(o) if os.path.exists(o) else {'recs': None, 'n': 0}
         obs = observe(d, o, info['recs'])
         rc = case.get('ref_config')
@@ -665,10 +869,14 @@ def handler(p):
             # "every record" for a --multiprocess run = what the serial run writes for the same options
             info = dict(info, recs=refs[rc]['recs'], n=len(refs[rc]['recs'] or []))
             obs = observe(d, o, info['recs'])
-        refs[key] = {'dir': d, 'recs': info['recs']}
+        refs[key] = {'dir': d, 'recs': info['recs'], 'wjobs': wjobs}
         out['refs'][key] = {'raised': raised, 'error': err, 'world': obs['world'], 'n_records': info['n'],
                             'molecules': mols, 'jobs': jobs, 'calls': counts, 'seconds': round(time.time() - t0, 2),
-                            'leftovers': obs['leftovers'], 'status_text': obs['status_text']}
+                            'leftovers': obs['leftovers'], 'status_text': obs['status_text'], 'rep': obs['rep'],
+                            'wjobs': [{'key': j['key'], 'ret': j['ret'],
+                                       'tasks': [{'written': t['written'], 'region': t.get('region'),
+                                                  'n_recs': len(t['recs']) if t.get('recs') is not None else None}
+                                                 for t in j.get('tasks', [])]} for j in wjobs]}
     t_start = time.time()
     for n, case in enumerate(p['cases']):
         if time.time() - t_start > RUN_BUDGET:
@@ -684,7 +892,7 @@ def handler(p):
             d = os.path.join(scratch, 'case_%d' % n)
             os.makedirs(d)
             o = os.path.join(d, 'out.bam')
-            ref = refs[case['config']]
+            ref = refs.get(case['config']) or refs[cfg['ref_for_pre']]
             if case.get('pre') == 'prev_ok':
                 for ext in ('.bam', '.bam.bai', '.status.txt'):
                     shutil.copy2(os.path.join(ref['dir'], 'out' + ext), os.path.join(d, 'out' + ext))
@@ -710,6 +918,13 @@ def handler(p):
             raised, err, counts, jobs, mols = run_tagger(tm, full, d, o, case['faults'])
             t1 = time.time()
             obs = observe(d, o, ref_recs)
+            wjobs, wfired = collect_logs(d)
+            obs['wfired'] = wfired
+            obs['wjobs'] = [{'key': j['key'], 'ret': j['ret'], 'timeouts': j.get('timeouts'),
+                             'tasks': [{'written': t['written'], 'outcome': t['outcome']} for t in j.get('tasks', [])]} for j in wjobs]
+            obs['submitted'] = len(counts.get('submitted', []))
+            obs['submitted_ok_message'] = any('All ok' in c for c in counts.get('submitted', []))
+            obs['segments'] = segments_check(obs.pop('recs'), ref_recs, ref.get('wjobs'), wjobs, obs['blacklisted'])
             obs['seconds'] = [round(t1 - t0, 2), round(time.time() - t1, 2)]
             obs.update({'raised': raised, 'error': err, 'jobs': jobs, 'molecules': mols,
                         'fired': counts.get('fired', []) + (['worker-side'] if err and 'njected' in err and not counts.get('fired') else [])})
@@ -717,7 +932,112 @@ def handler(p):
             shutil.rmtree(d, ignore_errors=True) if 'rmtree' not in ORIG else ORIG['rmtree'](d, ignore_errors=True)
         except BaseException as e:
             out['cases'].append({'harness_error': '%s: %s\n%s' % (type(e).__name__, e, traceback.format_exc()[-800:])})
+    out['wcases'] = []
+    for n, wc in enumerate(p.get('wcases', [])):
+        try:
+            out['wcases'].append(run_worker_case(scratch, n, refs[wc['config']], wc))
+        except BaseException as e:
+            out['wcases'].append({'harness_error': '%s: %s\n%s' % (type(e).__name__, e, traceback.format_exc()[-800:])})
     return out
+
+
+def load_job_args(ref, j):
+    """the pickled argument tuple of job j (canonical order) of a reference --multiprocess run"""
+    import pickle
+    found = {}
+    for fn in os.listdir(ref['dir']):
+        if fn.startswith('wargs_') and fn.endswith('.pkl'):
+            try:
+                o = pickle.load(open(os.path.join(ref['dir'], fn), 'rb'))
+                found[json.dumps(o['key'])] = o['args']
+            except Exception:
+                pass
+    key = json.dumps(ref['wjobs'][j]['key'])
+    return found.get(key)
+
+
+def run_worker_case(scratch, n, ref, wc):
+    """ONE real run_tagging_tasks call (no pool) on the arguments job j had in the reference run, with injected
+    faults; observed: what it returns, the temp BAM it leaves, the tasks it reports"""
+    global MAIN_PID
+    args = load_job_args(ref, wc['job'])
+    if args is None:
+        return {'skipped': 'arguments of the job were not captured'}
+    d = os.path.join(scratch, 'wcase_%d' % n)
+    tmp = os.path.join(d, 'tmp')
+    os.makedirs(tmp)
+    (apath, _, tmo), arglist = args
+    args = ((apath, tmp, tmo), arglist)
+    STATE['faults'] = [dict(f) for f in wc['faults']]
+    STATE['counts'] = {}
+    STATE['fired'] = []
+    STATE['out'] = '/nonexistent/out.bam'
+    STATE['logdir'] = d
+    new_counters()
+    report = os.path.join(d, 'report.json')
+    sys.stdout.flush()
+    sys.stderr.flush()
+    pid = os.fork()
+    if pid == 0:
+        code = 0
+        try:
+            MAIN_PID = -1          # this process plays a pool worker
+            os.setpgid(0, 0)
+            os.chdir(d)
+            buf = io.StringIO()
+            res = {'ret': 'raise', 'raised': 0, 'error': None, 'path': None, 'timeouts': None}
+            try:
+                with contextlib.redirect_stdout(buf), contextlib.redirect_stderr(buf):
+                    r = run_worker(args)
+                res['ret'] = 'none' if r[0] is None else 'path'
+                res['path'] = r[0]
+                res['timeouts'] = len(reported_tasks(r[1]))
+            except BaseException as e:
+                res['raised'], res['error'] = classify_exc(e), '%s: %s' % (type(e).__name__, str(e)[:200])
+            res['fired'] = STATE['fired']
+            with open(report, 'w') as fh:
+                json.dump(res, fh)
+        except BaseException:
+            code = 3
+        finally:
+            os._exit(code)
+    t_end = time.time() + CASE_TIMEOUT
+    done = False
+    while time.time() < t_end:
+        got, st = os.waitpid(pid, os.WNOHANG)
+        if got == pid:
+            done = True
+            break
+        time.sleep(0.005)
+    try:
+        os.killpg(pid, signal.SIGKILL)
+    except OSError:
+        pass
+    if not done:
+        os.waitpid(pid, 0)
+        return {'raised': 99, 'error': 'HANG'}
+    STATE['faults'] = []
+    if not os.path.exists(report):
+        return {'harness_error': 'worker case ended without a report'}
+    res = json.load(open(report))
+    # the temp BAM: the returned path, else whatever <uuid>.bam is left in the temp folder
+    bams = [os.path.join(tmp, x) for x in os.listdir(tmp) if x.endswith('.bam')]
+    bais = [os.path.join(tmp, x[:-4]) for x in os.listdir(tmp) if x.endswith('.bam.bai')]
+    path = res['path'] or (bams[0] if bams else (bais[0] if bais else os.path.join(tmp, 'none.bam')))
+    job = ref['wjobs'][wc['job']]
+    ref_recs = sorted(r for t in job.get('tasks', []) for r in (t.get('recs') or []))
+    ex = os.path.exists(path)
+    info = read_bam(path) if ex else {'readable': False, 'n': 0, 'recs': None, 'sorted': False, 'so_header': None}
+    co = bool(ex and info['readable'] and info['recs'] == ref_recs)
+    so = bool(ex and info['readable'] and info['so_header'] == 'coordinate' and info['sorted'])
+    res.update({'world': [0, int(ex), int(co), int(so), int(index_ok(path))], 'n_records': info['n'], 'n_ref': len(ref_recs),
+                'rep': int(bool(res.get('timeouts'))), 'left': sorted(os.path.basename(x) for x in os.listdir(tmp))[:6]})
+    jobs, fired = collect_logs(d)
+    res['wfired'] = fired
+    res['tasks'] = [{'written': t['written'], 'outcome': t['outcome']} for j in jobs for t in j.get('tasks', [])]
+    res['path'] = None
+    ORIG['rmtree'](d, ignore_errors=True)
+    return res
 
 
 if __name__ == '__main__':
